@@ -559,8 +559,8 @@ fn sweep<'a, B: SddBuilder<'a>>(b: &'a B, cfg: &SCfg, ctx: &Ctx) -> Report {
         if s.stop {
             break;
         }
-        if k % 4096 == 4095 && ctx.over_time() {
-            s.rep.cap("wall-clock cap while materialising functions");
+        if k % 4096 == 4095 && (ctx.over_time() || ctx.over_mem()) {
+            s.rep.cap("wall-clock or memory cap while materialising functions");
             s.stop = true;
         }
     }
@@ -629,8 +629,8 @@ fn sweep<'a, B: SddBuilder<'a>>(b: &'a B, cfg: &SCfg, ctx: &Ctx) -> Report {
             }
             if ii % (total / 16).max(1) == 0 {
                 s.recheck_pool();
-                if ctx.over_time() {
-                    s.rep.cap("wall-clock cap inside the SDD pair sweep");
+                if ctx.over_time() || ctx.over_mem() {
+                    s.rep.cap("wall-clock or memory cap inside the SDD pair sweep");
                     break;
                 }
             }
@@ -690,8 +690,8 @@ fn sweep<'a, B: SddBuilder<'a>>(b: &'a B, cfg: &SCfg, ctx: &Ctx) -> Report {
                     break 'i;
                 }
             }
-            if ctx.over_time() {
-                s.rep.cap("wall-clock cap inside the SDD ite sweep");
+            if ctx.over_time() || ctx.over_mem() {
+                s.rep.cap("wall-clock or memory cap inside the SDD ite sweep");
                 break;
             }
         }
